@@ -18,6 +18,12 @@ CHECKS = {
         ref="§5 C19"),
 }
 
+CHECKS["C16"] = dict(
+    text="Cell count, addressing (cell (x,y) = element y*w+x of begin()..end(), and back), independence of assignments, the row-major region enumeration (membership, no duplicates, order, elements passed) and the resize law (single step and arbitrary chains, zero sizes included) are Lean theorems about a loop-by-loop transcription of canvas.cpp / for_each_in_region; the transcription is tied to the real canvas by exhaustive (old,new) size pairs with pairwise distinct contents, all sub-rectangles of a 5x4 canvas and random chains, and an independent oracle (abstract coordinate map) judges the real answers.",
+    note="Lean kernel; axioms propext, Classical.choice, Quot.sound; model hand-written (List Element grid, Int coordinates, no int32 overflow: w*h < 2^31 assumed); out-of-range access (UB in C++) is outside the property and guarded in the harness; ASan/UBSan abort of the executor counts as a violation.",
+    technique="Lean 4 theorems (induction over region/resize folds) + exhaustive/random differential tie under ASan",
+    ref="§5 C16")
+
 NOT_YET = {}
 
 
